@@ -679,8 +679,16 @@ class RefDevice:
                 return []
             self.prop_queries.append(ids)
             items = []
+            empty = getattr(self, "empty_props_once", None)
             for pid in ids:
+                if empty and pid in empty:
+                    # the unit has nothing to say about this property right now: a record without a value
+                    items.append((pid, 0x00, b""))
+                    self._fire("empty_property_record")
+                    continue
                 items.append((pid, 0x00, acmodel.prop_store_value_for_read(pid, self.props)))
+            if empty:
+                self.empty_props_once = None
             for vp in getattr(self, "volunteered_props", ()):
                 # properties the unit reports without being asked (ids this client knows of but does not use)
                 pos, pid, val = vp[0], vp[1], vp[2]
